@@ -36,7 +36,9 @@ RULE = (
     "decorated with colour markers and comments at the positions the grammar allows (must give the identical "
     "table); truncate (every offset when the text is <= 220 characters, else ~200 evenly spread offsets plus "
     "token boundaries +-1); corrupt one point (number replaced by a word, number deleted, fifth number inserted, "
-    "closing bracket of the point deleted); EIO at a byte offset inside the document. Distinct = distinct "
+    "closing bracket of the point deleted); EIO at a byte offset inside the document; rewrite (the file is converted, "
+    "replaced in place by a same-length document with one digit changed and its modification time restored, and "
+    "converted again). 12% of the points repeat the point they hang on. Distinct = distinct "
     "event-log digest; non-trivial = the document has at least one split and at least one faulted variant was "
     "judged."
 )
@@ -87,11 +89,23 @@ def gen_deco(rng: Prng) -> list:
     return out
 
 
-def gen_body(rng: Prng, depth: int, maxdepth: int, maxpts: int, budget: list) -> dict:
+def gen_body(rng: Prng, depth: int, maxdepth: int, maxpts: int, budget: list, above=None) -> dict:
     npts = rng.choice([1, 1, 2, 3, 5, 8, maxpts]) if budget[0] > 0 else 1
     npts = max(1, min(npts, budget[0]))
     budget[0] -= npts
-    body: dict = {"points": [[gen_num(rng) for _ in range(4)] for _ in range(npts)]}
+    pts = []
+    for _ in range(npts):
+        prev = pts[-1] if pts else above
+        if prev is not None and rng.chance(0.12):
+            # a point that repeats the point it hangs on (coincident samples are common in traced data);
+            # sometimes only the radius differs
+            pt = list(prev)
+            if rng.chance(0.3):
+                pt[3] = gen_num(rng)
+        else:
+            pt = [gen_num(rng) for _ in range(4)]
+        pts.append(pt)
+    body: dict = {"points": pts}
     if depth < maxdepth and budget[0] > 0 and rng.chance(0.75 if depth < 3 else 0.55):
         nalt = rng.choice([2, 2, 2, 3, 4])
         alts = []
@@ -99,7 +113,7 @@ def gen_body(rng: Prng, depth: int, maxdepth: int, maxpts: int, budget: list) ->
             if rng.chance(0.15):
                 alts.append(None)
             else:
-                alts.append(gen_body(rng, depth + 1, maxdepth, maxpts, budget))
+                alts.append(gen_body(rng, depth + 1, maxdepth, maxpts, budget, above=pts[-1]))
         body["split"] = alts
     return body
 
@@ -151,7 +165,7 @@ def generate(rng: Prng, tier: str) -> dict:
     variants = []
     kinds = ["bare", "decorated", "truncate", "corrupt", "eio"]
     for _ in range(w.randint(3, 8) if not big else 3):
-        kind = w.weighted([("bare", 2), ("decorated", 3), ("truncate", 4), ("corrupt", 4), ("eio", 2)])
+        kind = w.weighted([("bare", 2), ("decorated", 3), ("truncate", 4), ("corrupt", 4), ("eio", 2), ("rewrite", 2)])
         v: dict = {"kind": kind, "source": w.weighted([("path", 4), ("path_crlf", 2), ("wrapper", 2), ("string", 3)]),
                    "stream": gen_stream(sp) if w.chance(0.6) else {}}
         if kind == "decorated":
@@ -168,6 +182,11 @@ def generate(rng: Prng, tier: str) -> dict:
             v["word"] = fp.choice(BAD_WORDS)
         elif kind == "eio":
             v["f"] = fp.random()
+        elif kind == "rewrite":
+            v["point"] = fp.below(1 << 20)
+            v["field"] = fp.below(4)
+            v["keep_mtime"] = fp.chance(0.7)
+            v["source"] = "path"
         variants.append(v)
     assert kinds
     return {"prop": PROP, "doc": doc, "seps": seps, "variants": variants,
@@ -373,6 +392,50 @@ def execute(program: dict) -> dict:
                     world.fired(f"corrupt_{how}")
                     judged_fault = True
                     world.log(vi, op, how, out)
+                elif kind == "rewrite":
+                    # storage history: the file is converted, then replaced IN PLACE by a document of the same
+                    # length whose one coordinate differs (modification time restored, as rsync -t / cp -p /
+                    # an archive extraction would), and converted again: the answer must follow the file
+                    import os as _os
+
+                    toks = list(base_tokens)
+                    i = point_token_index(toks, v["point"])
+                    j = i + 1 + v["field"]
+                    word = toks[j][1]
+                    if not word[-1].isdigit():
+                        world.log(vi, op, "no digit to change")
+                        continue
+                    new_word = word[:-1] + str((int(word[-1]) + 1) % 10)
+                    toks[j] = (toks[j][0], new_word)
+                    t2, _ = asc_model.render(toks, program["seps"])
+                    try:
+                        exp2 = asc_model.recognise(t2)
+                    except Reject as r:
+                        raise AssertionError(f"rewritten document rejected by the recogniser: {r}") from None
+                    if len(t2) != len(text):
+                        raise AssertionError("rewrite changed the length")
+                    from swcgeom.transforms import NeurolucidaAscToSwc
+
+                    rel = f"{tag}.asc"
+                    path = world.put(rel, text.encode("utf-8"))
+                    world.read_plans[rel] = StreamPlan.from_json(v.get("stream") or {})
+                    try:
+                        first = NeurolucidaAscToSwc.convert(path)
+                    except Exception as e:  # noqa: BLE001
+                        raise Bad("rejected_wellformed", f"{op}/{type(e).__name__}", f"{type(e).__name__}: {e}") from None
+                    compare(first, exp, op)
+                    st = _os.stat(path)
+                    world.put(rel, t2.encode("utf-8"))
+                    if v["keep_mtime"]:
+                        _os.utime(path, ns=(st.st_atime_ns, st.st_mtime_ns))
+                    try:
+                        second = NeurolucidaAscToSwc()(path)
+                    except Exception as e:  # noqa: BLE001
+                        raise Bad("rejected_wellformed", f"{op}/{type(e).__name__}", f"{type(e).__name__}: {e}") from None
+                    compare(second, exp2, f"{op}:second_read")
+                    world.fired("file_replaced_in_place")
+                    judged_fault = True
+                    world.log(vi, op, v["keep_mtime"], "ok")
                 elif kind == "eio":
                     before = world.faults.get("eio_read", 0)
                     out = must_reject(world, text, v, op, tag, "I/O error inside the document", eio_frac=v["f"])
